@@ -30,6 +30,10 @@ type C06Case struct {
 	// Warm: the parsed script is first executed once with other values of its variables
 	// (portion variables rotated, or zero next to a `remaining` clause; another total)
 	Warm bool `json:"warm,omitempty"`
+	// Decoy (destination side): the allotment under test is the `remaining` branch of an
+	// ordered destination whose first clause (cap 0, so it receives nothing) holds other
+	// allotments: 1 = directly, 2 = one level deeper, behind a clause that absorbs everything
+	Decoy int `json:"decoy,omitempty"`
 }
 
 func (c *C06Case) build() (*gen.ExecCase, []string) {
@@ -68,6 +72,24 @@ func (c *C06Case) build() (*gen.ExecCase, []string) {
 			d.Items = append(d.Items, gen.DstItem{Portion: a, To: gen.KOD{Dst: &gen.Dst{Kind: gen.DAcct, Addr: gen.Acct(name)}}})
 		}
 		st.Dst = d
+		// (with nothing to split, the branch under test would receive nothing and need not be
+		// evaluated at all: the wrapper is left out then)
+		if c.Decoy != 0 && strings.Trim(c.Total, "0") != "" {
+			acct := func(n string) gen.KOD { return gen.KOD{Dst: &gen.Dst{Kind: gen.DAcct, Addr: gen.Acct(n)}} }
+			decoy := &gen.Dst{Kind: gen.DAllot, Items: []gen.DstItem{
+				{Portion: gen.Allot{Kind: gen.ALit, Text: "1/4"}, To: acct("q0")},
+				{Portion: gen.Allot{Kind: gen.ALit, Text: "3/4"}, To: acct("q1")}}}
+			zero := gen.Mon(gen.Asset("COIN"), gen.NumI(0))
+			first := gen.KOD{Dst: decoy}
+			if c.Decoy == 2 {
+				rem := gen.KOD{Dst: decoy}
+				first = gen.KOD{Dst: &gen.Dst{Kind: gen.DInorder,
+					Clauses:   []gen.DstClause{{Cap: gen.Mon(gen.Asset("COIN"), gen.NumI(1000000)), To: acct("q2")}},
+					Remaining: &rem}}
+			}
+			rest := gen.KOD{Dst: d}
+			st.Dst = &gen.Dst{Kind: gen.DInorder, Clauses: []gen.DstClause{{Cap: zero, To: first}}, Remaining: &rest}
+		}
 	} else {
 		st.Dst = &gen.Dst{Kind: gen.DAcct, Addr: gen.Acct("world")}
 		s := &gen.Src{Kind: gen.SAllot}
@@ -336,6 +358,9 @@ func genC06(t *rapid.T, tier string) any {
 	}
 	c.Twice = gen.Chance(t, "twice", 25)
 	c.Warm = gen.Chance(t, "warm", 30)
+	if gen.Chance(t, "decoy", 25) {
+		c.Decoy = 1 + gen.Uniform(t, "decoy.kind", 2)
+	}
 	return c
 }
 
